@@ -1,7 +1,7 @@
 """C19 — serde form is the canonical string and round-trips (DESIGN §4.19), configuration K2 (feature serde)."""
 import re
 from .. import px as pxm, terms, models
-from . import common
+from . import common, validators
 
 LI = 'LanguageIdentifier'
 
@@ -152,6 +152,8 @@ def run(tier, replay=None):
         unk = [n for n in e.unmodelled if models.totality(n) == 'unknown' and not re.search(r'(Serializer::serialize_str|Deserializer::deserialize_(str|string|any))$', n)]
         rep.ob('serde:nopanic:%s' % fn.split('::')[-1], 'SERDE-PANIC', fn, prog.bodies[fn]['span'], '%s has no panic site' % fn.split('::')[-1], not pan and not unk,
                detail='panic paths %d; unclassified externals %s' % (len(pan), unk[:3]))
+    # the round trip through the serialised string needs the subtag validators to be exact and normalising (shared with C15)
+    validators.run_all(prog, rep, roles_wanted={'Language', 'Script', 'Region', 'Variant'})
     rep.count('bodies analysed', len(analysed))
     rep.floor('serde bodies analysed', len(analysed), 4)
     rep.explanation = ('Structural necessary conditions read from the MIR of the serde impls (feature serde): serialize = serialize_str(self.to_string()); deserialize hands a visitor that '
